@@ -1,7 +1,7 @@
 //! C04 - diff application is exact; diff . apply = id; through the textual .tinydiff form, with delivery
 //! faults on the diff history (drop, duplicate, reorder, wrong base) and media faults on the diff text.
 
-use crate::bridge::{from_quill, from_quill_diff, to_quill, Ns};
+use crate::bridge::{from_quill, from_quill_diff, to_quill, to_quill_diff, Ns};
 use crate::c03::shrink_mapset;
 use crate::engine::*;
 use crate::refdiff::*;
@@ -32,6 +32,10 @@ pub struct Plan {
     pub read_io: IoPlan,
     /// read the texts through real files (`read_file`) instead of the reader hook
     pub via_file: bool,
+    /// deliver the diffs as in-memory values (what `MappingsDiff::diff` produced, or a perturbation of it) instead of text;
+    /// only here does a no-op edit `Edit(a,a)` keep its stated old value
+    #[serde(default)]
+    pub in_memory: bool,
 }
 
 type Q = Mappings<2, Ns>;
@@ -114,8 +118,12 @@ impl Engine for C04 {
             strip_param_src(&mut next);
             states.push(next);
         }
-        let mut p = Plan { states, start: 0, delivery: (1..=k).collect(), perturb: vec![], text_style: if w.chance(50) { 0 } else { w.next() | 1 }, read_io: IoPlan::plain(), via_file: s.chance(10) };
-        if s.chance(60) && !p.via_file {
+        let mut p = Plan { states, start: 0, delivery: (1..=k).collect(), perturb: vec![], text_style: if w.chance(50) { 0 } else { w.next() | 1 }, read_io: IoPlan::plain(), via_file: s.chance(10), in_memory: false };
+        if s.chance(25) {
+            p.in_memory = true;
+            p.via_file = false;
+        }
+        if s.chance(60) && !p.via_file && !p.in_memory {
             p.read_io = IoPlan::gen_legal(&mut s);
         }
         // faults: ~45 % of runs fault-free
@@ -148,6 +156,7 @@ impl Engine for C04 {
                     let i = f.range(1, k as u64) as usize;
                     p.perturb.push((i, f.next()));
                 }
+                _ if p.in_memory => p.start = f.range(1, k as u64) as usize,
                 _ => {
                     // media fault on the first delivered text
                     p.via_file = false;
@@ -225,6 +234,58 @@ impl Engine for C04 {
         }
         for (step, &i) in p.delivery.iter().enumerate() {
             let (d_model, text) = diff_text(p, i);
+            if p.in_memory {
+                st.probe("delivered_in_memory");
+                let perturbed = p.perturb.iter().any(|(j, _)| *j == i);
+                let real_d = if perturbed {
+                    to_quill_diff(&d_model).expect("model diff admissible for quill")
+                } else {
+                    match no_panic(|| MappingsDiff::diff(&q_of(&p.states[i - 1]), &q_of(&p.states[i]))) {
+                        Ok(Ok(d)) => d,
+                        _ => break, // reported in the T0 part
+                    }
+                };
+                let want = ref_apply(&d_model, &cur_ref); // not normalised: Edit(a,a) states that the target holds `a`
+                let target = cur_real.clone();
+                let ns1 = cur_ref.ns[1].clone();
+                match no_panic(|| real_d.apply_to::<2, Ns, Ns>(target, &ns1)) {
+                    Err(pm) => {
+                        out.push(Violation::new("T0", "panic", format!("apply:{}", panic_path(&pm)), pm));
+                        break;
+                    }
+                    Ok(Err(e)) => match want {
+                        Err(_) => {
+                            st.probe("refused_by_both");
+                            break;
+                        }
+                        Ok(_) => {
+                            out.push(Violation::new("T0", "refused-wellformed", format!("chain[{step}].apply-in-memory"), format!("reference applies diff {i} cleanly, real refuses: {e:#}")));
+                            break;
+                        }
+                    },
+                    Ok(Ok(next)) => {
+                        let got = from_quill(&next).expect("projects");
+                        match want {
+                            Err(why) => {
+                                out.push(Violation::new("T0", "accepted-inconsistent-diff", format!("chain[{step}].apply-in-memory"), format!("the diff does not fit the target ({why}) but apply_to returned Ok")));
+                                break;
+                            }
+                            Ok(w) => {
+                                if let Some((path, det)) = w.diff_path(&got) {
+                                    out.push(Violation::new("T0", "semantic-mismatch", format!("chain[{step}].apply-in-memory.{path}"), det));
+                                    break;
+                                }
+                                if history_fault {
+                                    st.probe("applied_despite_history_fault");
+                                }
+                                cur_ref = w;
+                                cur_real = next;
+                            }
+                        }
+                    }
+                }
+                continue;
+            }
             // --- read the text
             let first = step == 0;
             let io = if first { p.read_io.clone() } else { IoPlan { faults: vec![], seed: p.read_io.seed ^ step as u64, ..p.read_io.clone() } };
@@ -292,6 +353,10 @@ impl Engine for C04 {
                             Err(e) => out.push(Violation::new("T2", "reader-ok-with-wrong-data", "read-diff.info", format!("{e:#}"))),
                         }
                         r
+                    }
+                    Err(e) if e.starts_with(UNDECODABLE) => {
+                        out.push(Violation::new("T2", "reader-ok-on-undecodable-input", "read-diff", format!("the delivered bytes are not UTF-8 text ({e}) but the diff reader returned Ok")));
+                        break;
                     }
                     Err(_) => {
                         st.probe("lenient_accept");
@@ -371,6 +436,11 @@ impl Engine for C04 {
             q.via_file = false;
             c.push(q);
         }
+        if p.in_memory {
+            let mut q = p.clone();
+            q.in_memory = false;
+            c.push(q);
+        }
         if p.text_style != 0 {
             let mut q = p.clone();
             q.text_style = 0;
@@ -445,6 +515,6 @@ impl Engine for C04 {
         json!({"real": ["quill::tree::mappings_diff::MappingsDiff::{diff, apply_to}", "quill::tiny_v2_diff::{read_file, read (via hook verif_read)}", "quill::lines", "std::fs::File for the via_file runs"], "stub": ["byte source (SimReader)", "tmpfs scratch directory (SimDir) for read_file", "diff delivery (the history fault plan)"], "reference": ["refdiff::{ref_diff, ref_apply, read_tinydiff, write_tinydiff}"]})
     }
     fn expected_probes(&self) -> Vec<&'static str> {
-        vec!["refused_by_both", "applied_despite_history_fault", "chain_complete", "history.wrong_base", "history.inconsistent_text", "read_via_file", "lenient_accept", "read_ok_on_damaged_medium_agrees", "io.eintr"]
+        vec!["delivered_in_memory", "refused_by_both", "applied_despite_history_fault", "chain_complete", "history.wrong_base", "history.inconsistent_text", "read_via_file", "lenient_accept", "read_ok_on_damaged_medium_agrees", "io.eintr"]
     }
 }
